@@ -46,6 +46,19 @@ theorem buffered_body_is_copied :
     "SetBody" ∈ Gen.adaptorCtxCalls ∧ "SetBodyRaw" ∉ Gen.adaptorCtxCalls ∧ "SwapBody" ∉ Gen.adaptorCtxCalls ∧
     "SetBodyStream" ∉ Gen.adaptorCtxCalls := by decide
 
+/-! handler-set Content-Length (outside `wellFormed`, which leaves the field to the server) -/
+def clProg : List HOp := [.set sContentLength (ofString "5"), .write (ofString "hello")]
+
+/-- buffered answers keep the handler's Content-Length (a HEAD answer that only declares its length included) -/
+theorem content_length_kept_when_buffered :
+    adaptor clProg = reference clProg ∧
+    adaptor [.set sContentLength (ofString "1234")] = reference [.set sContentLength (ofString "1234")] := by decide +kernel
+
+/-- recorded finding content-length-dropped-when-streaming: after a Flush the adaptor sends no Content-Length -/
+theorem content_length_streaming_counterexample :
+    (adaptor (clProg ++ [.flush])).map (fun r => Hdr.values r.header sContentLength) = some [] ∧
+    (reference (clProg ++ [.flush])).map (fun r => Hdr.values r.header sContentLength) = some [ofString "5"] := by decide +kernel
+
 /-- in particular no well-formed program panics -/
 theorem adaptor_defined (p : List HOp) (hp : wellFormed p) : (adaptor p).isSome = true := by
   have hi := inv_run p hp
